@@ -29,6 +29,14 @@ Long lines and definitions that carry more than a value (added after seeded chan
   * texts on targets where the definition of a symbol carries a data size, a register, a bit position or a segment (8086 DB/DW/STRUCT, REG, BIT, SFR,
     PORT, 8051 segments), plain vs to-macro / to-include / REPT 1 / IRP with one value / nested macros.
 
+Lines moved into INCLUDE files where the INCLUDE line itself would act as a statement (added after seeded change C16-i was missed): vlib/props/c16_incl.py
+  * the to-include runs of the corpus sweep cut the rewritten golden source at random statement boundaries into include files nested up to 3 (preferably
+    directly behind a label-only line, in front of a parallel `||` instruction, next to SAVE / RESTORE / ON-OFF statements) instead of moving the whole text;
+  * generated source trees on the four targets that pad instruction words to even addresses (68000, MSP430, TMS9900, AVR byte mode): labels on lines of their
+    own / on the INCLUDE line / on a macro call in front of padded objects, IF 1 / ENDIF and SAVE / RESTORE across file boundaries, macro definitions inside
+    include files, reserved space; tree spelling and flat spelling against Spec/InclPad (the PADDING paragraph as layout) and Model/InclPad (asmlabel.c,
+    InsertPadding, ResetLastLabel of Produce_Code); Props/C16_Incl.lean: tree = flat on the model for every tree.
+
 The rewrite generator is deliberately conservative (a false alarm is worse than a miss); every exclusion is listed in
 EXCLUSIONS below and counted in the evidence.
 """
@@ -41,6 +49,7 @@ from .. import common
 from ..common import log
 from . import c16_prefix
 from . import c16_long
+from . import c16_incl
 
 EXCLUSIONS = [
     "lines ending in a backslash (continuation) and the line after them: nothing is inserted or changed (only the line end may become CR-LF)",
@@ -65,6 +74,10 @@ EXCLUSIONS = [
     "every rewritten line must have model fields equal to the original's (Lean c16pair); otherwise the rewrite of that line is dropped (counted as model_rejected)",
     "to-macro: only sources without MACRO/ENDM/IRP*/REPT/WHILE/EXITM/SHIFT/END/'#' lines, continuation lines, ATTRIBUTE/ALLARGS/ARGCOUNT/__LABEL__ words "
     "(texts that define/call macros and repetitions referring to their own labels are covered by the generated wrap texts instead)",
+    "cut-into-includes (c16_incl.py): cuts only at statement boundaries outside macro / repetition bodies and never behind a continuation line; a run that goes into a "
+    "file is balanced in its IF / SWITCH structure (an INCLUDE line inside a skipped region is not executed, so conditional lines of its file would not be seen); END and "
+    "the text behind it stay in the main file; sources that read MOMLINE / MOMFILE keep the whole-text form; no label is put on the INCLUDE line of a golden source "
+    "(generated trees do that); generated trees: no reserved space on AVR (RES is itself word-aligned there), IF 1 / ENDIF across files only in trees without macro calls",
     "long-line sweeps (c16_long.py): the swept lines carry no label (all spellings of one line stand in one source); operands are decimal numbers, '(d)' and 'd+d' "
     "only (no quotes: per-target QualifyQuote rules); a sweep wrapped into MACRO / IRP whose lines contain TABs and reach the line buffer in TAB-expanded form is "
     "attributed to the known finding macro-body-line-with-tabs-expands-beyond-line-buffer (the quick tier wraps TAB-free sweeps into MACRO / IRP for that reason)",
@@ -972,6 +985,8 @@ def run(args):
         dist["probe_features"] = probe_stats
 
         log("C16: probes done %.1fs" % (time.time() - t0))
+        import sys as _sys
+        cut_stats = {}
         # ---------------- (C) metamorphic corpus runs
         for tidx, (name, asm, flags) in enumerate(sel):
             raw = open(asm, "rb").read().decode("latin-1")
@@ -1034,8 +1049,16 @@ def run(args):
                 wmode = (tidx + s + args.seed) % 3
                 if wmode == 1:
                     whole = "to-include"
-                    files = {name + ".asm": "\tinclude \"c16body.inc\"" + ("\r\n" if eol_mode == "crlf" else "\n"), "c16body.inc": text}
+                    e_ = "\r\n" if eol_mode == "crlf" else "\n"
+                    files = {name + ".asm": "\tinclude \"c16body.inc\"" + e_, "c16body.inc": text}
                     dist["to_include"] += 1
+                    # three of four times: the text is cut at random statement boundaries into include files nested up to 3 (c16_incl.py)
+                    if rng.random() < 0.75 and not uses_momline and "MOMFILE" not in raw.upper():
+                        cut = c16_incl.cut_into_includes(_sys.modules[__name__], rng, text, e_, cut_stats)
+                        if cut:
+                            whole = "cut-into-includes"
+                            files = {(name + ".asm" if k_ is None else k_): v_ for k_, v_ in cut.items()}
+                            dist["cut_into_includes"] = dist.get("cut_into_includes", 0) + 1
                 elif wmode == 2:
                     if macro_applicable(raw):
                         whole = "to-macro"
@@ -1187,6 +1210,19 @@ def run(args):
         dist["prefix_part"] = pp["dist"]
         log("C16: prefix-style statements done %.1fs" % (time.time() - t0))
 
+        # ---------------- lines moved into INCLUDE files / parameterless macros where the INCLUDE line would act as a statement (labels in front
+        #                  of padded objects): vlib/props/c16_incl.py, Model/InclPad.lean + Spec/InclPad.lean, Props/C16_Incl.lean
+        ip = c16_incl.run_part(_sys.modules[__name__], args, bdir, wd, drv_ok)
+        spec_fail += ip["spec_fail"]
+        corr_fail += ip["corr_fail"]
+        proof_problems += ip["problems"]
+        evaluations += ip["evaluations"]
+        distinct |= ip["distinct"]
+        samples += ip["samples"][:2]
+        dist["include_part"] = ip["dist"]
+        dist["cut_stats"] = cut_stats
+        log("C16: include trees done %.1fs" % (time.time() - t0))
+
         # ---------------- long lines (length sweeps across the component buffer sizes of SplitLine) and wrapped texts whose definitions carry
         #                  more than a value: vlib/props/c16_long.py, Model/Split.lean splitBuf/splitBufRun, Props/C16_Long.lean
         lp = c16_long.run_part(_sys.modules[__name__], args, bdir, wd, drv_ok)
@@ -1225,6 +1261,8 @@ def run(args):
         "harness line analyser (vlib/props/c16.py analyze/classify/prefix_sites) decides where rewrites are placed; every rewritten line is re-judged by the Lean model "
         "(c16pair; prefix-style statements: c16px = SplitLine + the code generator's own split; #define lines: c16def = Preprocess)",
         "generated prefix-statement texts: oracle = image of the plain spelling of the same text (current binary); Z380 DDIR/JP programs: oracle = Spec/PrefixCarry.code",
+        "include trees (c16_incl.py): oracle = Spec/InclPad.image (layout of the flat text by the PADDING paragraph of the manual; encodings NOP/RTWP, JMP abs.W / BR # / B @ / LDS, "
+        "DC.W / WORD from the manufacturers' opcode maps); cut-into-includes runs of the corpus sweep: oracle = the recorded .ori",
         "long-line sweeps (c16_long.py): oracle = the bytes written in each data line (harness evaluates decimal operands, '(d)' and 'd+d'); the model's arguments are evaluated the same way; "
         "definition-carrying wrap texts: oracle = image of the plain spelling (8086 texts also the harness's own encoding of INC/DEC/NEG/NOT/MOV mem,imm)"])
     dist["rewrites_by_kind"] = kinds_total
@@ -1232,6 +1270,7 @@ def run(args):
         evaluations=evaluations, distinct_nontrivial=len(distinct),
         rule="one evaluation = one rewritten golden source assembled + p2bin + compared with .ori; non-trivial = at least one line rewritten or a whole-file rewrite; distinct by rewritten text; "
              "plus (c16_prefix.py) one evaluation = one generated prefix-statement text in one spelling / one Z380 DDIR-JP program with empty lines, image compared with the plain spelling's / the SPEC's bytes; "
+             "plus (c16_incl.py) one evaluation = one generated source tree in its INCLUDE/macro spelling or its flat spelling, image compared with Spec/InclPad.image of the flat text; "
              "plus (c16_long.py) one evaluation = one length-sweep source (all spellings of one long data line) or one definition-carrying text in one whole-text spelling",
         samples=samples, distribution=dist, exclusions=EXCLUSIONS)
     res.assumptions = ["the recorded .ori images are correct", "macro-argument transport under -U is verbatim (used to observe the real split fields)"]
